@@ -7,6 +7,7 @@ import Driver.Pause
 import Driver.Url
 import Driver.Queue
 import Driver.Stage
+import Driver.Pipeline
 /-! zdriver: `zdriver <domain> [--base]` reads one JSON object per line, prints one result line each. -/
 open Lean
 
@@ -29,6 +30,7 @@ def domains : List (String × Domain) := [
   ("diskwatch", stateless Driver.Disk.stepWatch),
   ("item", { σ := Zeno.Model.Item.Tree, init := Driver.Item.init, step := Driver.Item.step }),
   ("rl", { σ := Driver.RateLimiter.St, init := {}, step := Driver.RateLimiter.step }),
+  ("pipeline", { σ := Unit, init := (), step := Driver.Pipeline.step }),
   ("reactor", { σ := Zeno.Model.Reactor.R, init := Zeno.Model.Reactor.R.init, step := Driver.Reactor.step })
 ]
 
